@@ -303,6 +303,9 @@ func runC36(c *eng.Ctx) {
 	c.Expect("PARAM-sink", 6)
 	_ = types.Typ
 	_ = P
+
+	errAll(c, "ERR-sink", "weed/replication/sink/filersink", "an error of a callee in the filer sink reaches the replicator", "(*FilerSink).UpdateEntry", "(*FilerSink).DeleteEntry", "(*FilerSink).replicateChunks", "(*FilerSink).replicateOneChunk", "(*FilerSink).fetchAndWrite")
+	c.Expect("ERR-sink", 12)
 }
 
 func sortStrings(xs []string) []string {
